@@ -20,6 +20,7 @@ func init() {
 			"(R4) reset rule shape: the away-counter is zeroed whenever the offset equals the home offset, incremented by one otherwise, and the offset returns home (counter zeroed) when the counter exceeds the configured interval; the disabled path only zeroes the counter. " +
 			"Does not decide: the modulo-quantum identity, the half-quantum step bound and the reset timing as numeric facts over all input sequences.",
 		RuleDocs: []string{
+			"C12.R6 (siblings) in a function that builds one channel's unwrapper, a constructor call with a constant inversion flag next to one that computes it is reported; the lookup is followed through predicate helpers of the options and through the parameters of a per-channel helper called from the loop",
 			"C12.R9 when the channels of a group are shared among worker goroutines by index ranges (first = worker x share), the share is the channel count divided by the worker count rounded up (polynomial form of the quotient); rounded down is reported, other forms are undecided",
 			"C12.R6 backward data slice of the inversion flag handed to each channel's unwrapper reads the group's first channel number (flags that leave the function through memory or a module call are undecided)",
 			"C12.R1 E5 carried-state rule: loop-header phis, uses of the range index",
